@@ -66,9 +66,20 @@ def _check(ctx: Ctx) -> None:
     if loop is None or out is None:
         raise AnalysisError(f"{FN}: message loop / output list not found")
     m = loop.target.id
+    # FR: normalising builds a new list; it never writes into the messages it was given (a message object may occur more than
+    # once in a sequence -- concatenate shares objects -- so an in-place edit of an input message shows up at every occurrence)
+    from ..engines.effects import Effects
+    eff = Effects(p)
+    ws = eff.writes("RelativeSequence", "normalise_relative")
+    attr_ws = [w for w in ws if w.kind == "attr"]
+    ctx.check(not attr_ws, "FR", f"{FN}: no attribute of an existing message is written", function=FN,
+              construct="normalise writes into the messages of its input",
+              message=f"{[(w.attr, short(w.node, 50)) for w in attr_ws][:3]}: an input message that occurs twice (or is shared with another sequence) is "
+                      f"changed at every occurrence", file=fi.file, node=attr_ws[0].node if attr_ws else fi.node)
     acc = find_accumulator(fi.node, loop)
     if acc is None:
-        raise AnalysisError(f"{FN}: wait accumulator (`x += {m}.time`) not found")
+        ctx.floor(f"wait accumulator (`x += {m}.time`) in {FN}", 0, 1)
+        return
     ctx.ok("OUT", f"{FN}: `{out}` becomes the event list")
 
     types = p.enum_order("MessageType")
